@@ -284,6 +284,15 @@ def _run(ck, m):
         y_calls = [callee(eb.term(x)) for x in reg_y if eb.term(x)['k'] == 'call']
         o_calls = [callee(eb.term(x)) for x in reg_o if eb.term(x)['k'] == 'call']
         runs = sb.id in y_calls and sb.id not in o_calls
+        # ... and runs it whatever else is going on: inside the "I am older" region no further test decides the call (a node that is itself
+        # StartingUp — booting, or between the swap and the broadcast of its own election — must still answer the younger candidate)
+        from nl.locks import controlling_switches as _cs7
+        for x in reg_y:
+            if eb.term(x)['k'] == 'call' and callee(eb.term(x)) == sb.id:
+                inner = [w for w in _cs7(eb, x) if w in reg_y]
+                if inner:
+                    runs = False
+                    details.append('the election call at %s is decided by a further test at %s' % (eb.loc(x), [eb.loc(w) for w in inner]))
         alive = any(wire.first_word(f) == 'election' and 'alive' in f.text() for _, f in templates_in(m, eb, reg_o)) and \
             not any('alive' in f.text() for _, f in templates_in(m, eb, reg_y))
         sec = [names for bi, names in role_store(m, eb, reg_o)]
